@@ -40,6 +40,15 @@ def compare(pred, obs):
         o = dict(obs)
         p['o'] = _strip_h(pred['o'])
         o['o'] = _strip_h(obs['o'])
+    # sizes of header-block frames are compared only where the model predicts them (it needs the block length)
+    if any(isinstance(f, dict) and 'sizes' in f for f in o.get('o', [])):
+        po = p.get('o', [])
+        oo = []
+        for i, f in enumerate(o['o']):
+            if isinstance(f, dict) and 'sizes' in f and not (i < len(po) and isinstance(po[i], dict) and 'sizes' in po[i]):
+                f = {k: v for k, v in f.items() if k != 'sizes'}
+            oo.append(f)
+        o = dict(o, o=oo)
     return driver.diff(p, o)
 
 
@@ -52,6 +61,8 @@ def run_behaviour(meta, steps, catalogue, check_setup=True):
     for s, phase in all_steps:
         if phase == 'step':
             idx += 1
+        if s['p'].get('ux'):
+            return None          # the model says this step cannot be predicted (HPACK contexts out of step): nothing further is judged
         s2 = resolve(s, catalogue)
         try:
             obs = sess.step(s2)
